@@ -1,6 +1,7 @@
 from common import COMMON_ASSUME
 
 PROP = dict(
+    technique='property-based testing: header round-trip and whole-buffer diff (cell isolation) oracles, sparse mappings for huge shapes',
     harness=['c10_dimension.c'],
     level_text=('generated-input search over pair headers (all 72 width '
                 'combinations with values at the width-class edges), packed '
